@@ -224,7 +224,7 @@ Obj(kind, id, n, alive) == [kind |-> kind, id |-> id, n |-> n, alive |-> alive, 
 ObjB(id, n, fr, ch) == [kind |-> "buf", id |-> id, n |-> n, alive |-> TRUE, fr |-> fr, ch |-> ch]
 InitState(cfg) ==
     [cfg |-> cfg, obj |-> <<>>, nodes |-> {}, recent |-> <<>>,
-     buf |-> {}, cb |-> {}, ab |-> {}, inbind |-> FALSE, pending |-> <<>>]
+     buf |-> {}, cb |-> {}, ab |-> {}, inbind |-> FALSE, pending |-> <<>>, poison |-> FALSE]
 BufPart(cfg) == A!ClientCfg(cfg.nbuf, cfg.logins, 0, 0, cfg.client)
 CbPart(cfg) == A!ClientCfg(cfg.ncb, cfg.logins, 0, 0, cfg.client)
 AbPart(cfg) == A!ClientCfg(cfg.nab - cfg.io, cfg.logins, 0, cfg.io, cfg.client)
@@ -429,8 +429,11 @@ Apply(st, e) ==
       \*      NRT: nothing at all (commands complete in logical time).  The id is an observation.
       [] e.op = "sync" -> R(st, IF st.cfg.rt = 1 THEN <<Ev("bundle", NOTIME, <<Msg("/sync", <<I(new)>>)>>)>> ELSE <<>>, "")
       [] e.op = "bigbind" -> R(st, <<>>, "")        \* judged as a whole by BigWhy; leaves the client state alone
-      [] e.op = "bind_enter" -> R([st EXCEPT !.inbind = TRUE, !.pending = <<>>], <<>>, "")
-      [] e.op = "bind_exit" -> R([st EXCEPT !.inbind = FALSE, !.pending = <<>>], <<>>, "")      \* handled in Step
+      \* a command with an argument the OSC encoder refuses (an int outside int32 in set(); a pathlib.Path as file name in
+      \* Buffer.read()): outside a block the call is refused and nothing is sent; inside a block it is collected (see Step)
+      [] e.op = "bad" -> R(st, <<>>, "Unencodable")
+      [] e.op = "bind_enter" -> R([st EXCEPT !.inbind = TRUE, !.pending = <<>>, !.poison = FALSE], <<>>, "")
+      [] e.op = "bind_exit" -> R([st EXCEPT !.inbind = FALSE, !.pending = <<>>, !.poison = FALSE], <<>>, "")      \* handled in Step
       [] OTHER -> R(st, <<Ev("unknown-op", 0, <<>>)>>, "")
 
 RECURSIVE MsgsOf(_)
@@ -446,9 +449,16 @@ Step(st, e) ==
     IF e.op = "sync" /\ st.inbind /\ st.cfg.rt = 1 /\ r.exc = ""
     THEN [st |-> [r.st EXCEPT !.pending = <<>>], exc |-> "",
           em |-> (IF st.pending = <<>> THEN <<>> ELSE <<Ev("bundle", st.cfg.latency, st.pending)>>) \o r.em]
+    \* A block whose FLUSH fails (it collected a command the encoder refuses): the exit raises, nothing of the block is
+    \* sent, and the block is over all the same - the server's address is the real one again, so the calls that follow
+    \* (outside, or in new blocks) are judged like any other and must reach the wire.
+    ELSE IF e.op = "bind_exit" /\ st.poison /\ e.n[1] = 0
+    THEN [st |-> r.st, exc |-> "Unencodable", em |-> <<>>]
     ELSE IF e.op = "bind_exit"
     THEN [st |-> r.st, exc |-> "",
           em |-> IF e.n[1] = 1 \/ st.pending = <<>> THEN <<>> ELSE <<Ev("bundle", st.cfg.latency, st.pending)>>]
+    ELSE IF st.inbind /\ e.op = "bad"
+    THEN [st |-> [st EXCEPT !.poison = TRUE], exc |-> "", em |-> <<>>]
     ELSE IF st.inbind /\ e.op # "bind_enter"
     THEN [st |-> [r.st EXCEPT !.pending = @ \o MsgsOf(r.em)], exc |-> r.exc, em |-> <<>>]
     ELSE [st |-> r.st, exc |-> r.exc, em |-> r.em]
@@ -514,7 +524,8 @@ BigWhy(st, e) ==
 StripMsg(m) == [a |-> m.a, g |-> m.g, b |-> [k \in 1 .. Len(m.b) |-> [a |-> m.b[k].a, g |-> m.b[k].g, b |-> <<>>]]]
 Strip(em) == [k \in 1 .. Len(em) |-> [k |-> em[k].k, t |-> em[k].t, m |-> [j \in 1 .. Len(em[k].m) |-> StripMsg(em[k].m[j])]]]
 \* the library refuses a freed bus object with the same exception class as a freed bus's as_map()
-ExcOk(got, want) == got = want \/ (want = "FreedBus" /\ got = "BusException")
+\* ... and whatever class the encoder uses to refuse an argument counts as the refusal
+ExcOk(got, want) == got = want \/ (want = "FreedBus" /\ got = "BusException") \/ (want = "Unencodable" /\ got # "")
 Why(st, e0) ==
     IF e0.op = "bigbind" THEN BigWhy(st, e0) ELSE
     LET e == [e0 EXCEPT !.em = Strip(Norm(@))]
